@@ -70,7 +70,8 @@ def _join_table(ctx, F, fname):
         if m == "index":
             return ("ref", {"l": -1, "p": [], "ty": "render::text_renderer::BorderSegHoriz"})
         if m == "index_mut":
-            return ("opaque", "slot")
+            # `let seg = &mut self.segments[x]; *seg = match *seg {..}`: the slot is read as well as written
+            return ("ref", {"l": -1, "p": [], "ty": "render::text_renderer::BorderSegHoriz"})
         if m == "stretch_to":
             return ("opaque", "unit")
         return None
@@ -117,7 +118,8 @@ def rule_a(ctx):
         idx = b.calls(lambda cd, t: callee_method(t) in ("index", "index_mut"))
         same = all(("arg", 2) in b.atoms(t["args"][1]) and not any(a[0] == "bin" for a in b.atoms(t["args"][1], through_calls=False))
                    for _bb, t in idx)
-        ctx.check(len(idx) == 2 and same, "C05-A", fname + ":reads-and-writes-segments[x]", b.span, b.id, "")
+        one_slot = len(idx) == 1 and callee_method(idx[0][1]) == "index_mut"  # `let s = &mut self.segments[x]; *s = match *s {..}`
+        ctx.check((len(idx) == 2 or one_slot) and same, "C05-A", fname + ":reads-and-writes-segments[x]", b.span, b.id, "")
 
 
 def _closure_table(F, b, names, ret_kind="char"):
@@ -171,7 +173,11 @@ def rule_c(ctx):
     names = seg_names(F)
     for fname, join in (("merge_from_below", "join_below"), ("merge_from_above", "join_above")):
         b = F.one("BorderHoriz::<T>::" + fname)
-        disp = find_dispatch(b, "BorderSegHoriz", 2)
+        try:
+            disp = find_dispatch(b, "BorderSegHoriz", 2)
+        except AnchorMissing:
+            _rule_c_iterator_form(ctx, F, b, fname, join, names)
+            continue
         t = b.term(disp)
         by_target = {}
         for v, tb in t["targets"]:
@@ -208,6 +214,40 @@ def rule_c(ctx):
         ctx.check(bool(b.calls(lambda cd, t: callee_method(t) == "enumerate")) and
                   not b.calls(lambda cd, t: callee_method(t) in ("rev", "skip", "step_by")), "C05-C",
                   fname + ":idx-from-enumerate", b.span, b.id, "")
+
+
+def _rule_c_iterator_form(ctx, F, b, fname, join, names):
+    """the same rule when the selection is an iterator chain:
+    `for idx in other.segments.iter().enumerate().filter(|(_, s)| matches!(**s, J..)).map(|(i, _)| i) { self.join(idx + pos) }`"""
+    import re
+    from ..widths import addends
+    calls = b.calls(lambda cd, t: callee_method(t) in ("join_below", "join_above"))
+    okc = len(calls) == 1 and callee_method(calls[0][1]) == join
+    ex = norm(b.canon(calls[0][1]["args"][1])) if calls else ""
+    ad = sorted(addends(ex)) if calls else []
+    okc = okc and len(ad) == 2 and ad[1] == "arg3" and re.fullmatch(r"\(<.*Map<.* as std::iter::Iterator>::next\(&mut \$\d+\) as Some\)", ad[0]) is not None
+    ctx.check(okc, "C05-C", "%s:join-at-idx+pos(iterator form)" % fname, b.span, b.id, "calls %s at %s" % ([callee_method(c[1]) for c in calls], ex))
+    closures = {callee_method(t): direct_place(b, t["args"][1]) for _bb, t in b.calls(lambda cd, t: callee_method(t) in ("filter", "map"))}
+    tabs = {}
+    for m, pl in closures.items():
+        sd = b.single_def(pl["l"]) if pl is not None and not pl["p"] else None
+        cb = F.bodies.get(sd[3]["rv"].get("def")) if sd and sd[0] == "stmt" and sd[3]["rv"].get("agg") == "closure" else None
+        tabs[m] = cb
+    fcb, mcb = tabs.get("filter"), tabs.get("map")
+    if not ctx.check(fcb is not None and mcb is not None, "C05-C", "%s:filter-and-map-closures" % fname, b.span, b.id, str(sorted(closures))):
+        return
+    table = _closure_table(F, fcb, names, ret_kind="bool")
+    for vn in sorted(names.values()):
+        want = vn in ("JoinAbove", "JoinBelow", "JoinCross")
+        keep = table.get(vn) in (1, True, "\x01")
+        ctx.check(keep == want, "C05-C", "%s:%s→%s" % (fname, vn, (join + "(idx+pos)") if want else "no-join"), fcb.span, fcb.id,
+                  "the filter keeps %s: %s" % (vn, table.get(vn)))
+    rets = [norm(mcb.canon(st["rv"]["use"])) for x in mcb.reachable() for st in mcb.stmts(x)
+            if st["k"] == "assign" and st["lhs"]["l"] == 0 and not st["lhs"]["p"] and "use" in st["rv"]]
+    ctx.check(rets == ["arg2.0"], "C05-C", "%s:map-yields-the-enumerate-index" % fname, mcb.span, mcb.id, str(rets))
+    ctx.check(bool(b.calls(lambda cd, t: callee_method(t) == "enumerate")) and
+              not b.calls(lambda cd, t: callee_method(t) in ("rev", "skip", "step_by", "take", "skip_while", "take_while")), "C05-C",
+              fname + ":idx-from-enumerate", b.span, b.id, "")
 
 
 def norm(s):
